@@ -53,6 +53,8 @@ def main(argv: list[str] | None = None) -> int:
     if pid not in PROPERTIES:
         print(f"ANALYSIS-ERROR unknown property {pid}")
         return 2
+    if args.repo:
+        os.environ["ICG_REPO"] = args.repo
     t0 = time.time()
     col = Collector(pid)
     errors: list[str] = []
